@@ -26,7 +26,8 @@ META = {
         "duplicate-free list whose members are exactly the blocks reachable from the start block, the "
         "start block last, and every block after the blocks it pushed (postorder_spec, "
         "postorder_children_first). The hand-written models are tied to /repo by building real xDSL "
-        "regions (cf.br / cf.cond_br / test.termop / test.op terminators) for ALL control-flow graphs up "
+        "regions (cf.br / cf.cond_br / test.termop / test.op / unregistered-operation terminators, one kind per "
+        "region or mixed by block) for ALL control-flow graphs up "
         "to the block bound with out-degree <= 2 (self-loops, multi-edges, unreachable blocks included) and "
         "random larger ones, and comparing dominates/strictly_dominates for every pair and the yielded "
         "sequence with the Lean driver; an independent Python oracle (reachability with a node removed, "
@@ -41,7 +42,10 @@ META = {
         "(fresh DominanceInfo, its query methods, every public module-level query function of "
         "xdsl.irdl.dominance found by introspection, a fresh PostOrderIterator) after each edit; each "
         "answer is judged against the graph read back from the region at that moment and compared with "
-        "the model run on that graph. Every call into the real code runs under a CPU-time watchdog: an "
+        "the model run on that graph; the reference graph of a history is the control flow the edits "
+        "REQUESTED (kept beside the region by list arithmetic), so an edit that stores other successor lists "
+        "than asked for (e.g. retargets both edges of a multi-edge) is a failing input of the edit. "
+        "Every call into the real code runs under a CPU-time watchdog: an "
         "implementation that does not terminate is a failing input."
     ),
     "technique": "Lean 4 fixpoint/invariant proofs + exhaustive small-graph and random differential correspondence with the real classes",
@@ -50,7 +54,10 @@ META = {
         "correspondence only: all graphs up to the bound, random beyond); the abstraction of a region to "
         "successor lists of each block's last operation (post-order: only if that operation has the "
         "IsTerminator trait, as the code demands; the `op` style with a non-terminator carrying successors "
-        "is therefore exercised for dominance only). The statement does not constrain what is reported for "
+        "is therefore exercised for dominance only; an UNREGISTERED last operation with successors ends its "
+        "block as far as anybody can know - xDSL's convention has_trait(..., value_if_unregistered=True) - and "
+        "post-order must follow its successors: styles `unreg`, `mix`). In histories the CFG of a region is the "
+        "one its client built through the public mutation API (Live.want), whatever the operations store. The statement does not constrain what is reported for "
         "an unreachable block b (dominates(a, b)); the oracle checks reachable b only, the model/"
         "correspondence fixes it to 'every block'. Successors outside the region (KeyError in "
         "DominanceInfo) are outside the statement: correspondence only. A DominanceInfo object or a "
@@ -68,7 +75,8 @@ META = {
         "reachable from the entry. Distinct = distinct (function, successor lists, style). Histories: every "
         "graph with <=3 blocks x every single retargeted edge (quick: n=3 as far as the budget allows) and, "
         "for <=2 blocks (thorough: <=3), every replaced terminator, as ask-edit-ask; plus seeded random histories "
-        "(1-2 regions of 3..8 blocks, 2..7 edits of 7 kinds). A history is non-trivial when the reference "
+        "(1-2 regions of 3..8 blocks, 2..7 edits of 7 kinds; retargeted edges addressed by non-negative or negative "
+        "index). Construction styles: cf, term, op, unreg, mix (cf/term/unreg by list position). A history is non-trivial when the reference "
         "dominance relation of a region differs between two consecutive queries of it; distinct = distinct "
         "(regions, style, steps). Random graphs: a third are structured CFGs of 4..15 blocks listed in a "
         "shuffled order."
@@ -90,8 +98,19 @@ PO_SITE = "xdsl.ir.post_order.PostOrderIterator.__next__"
 # real-code adapter
 # ---------------------------------------------------------------------------------------------
 
+KINDS = ("cf", "term", "op", "unreg")       # what one block's last operation is
+MIX = ("cf", "term", "unreg")               # style `mix`: the kinds that end a block, by list position
+STYLES = ("cf", "term", "op", "unreg", "mix")
+_UNREG: dict[str, Any] = {}
+
+
+def kind_of(style: str, i: int) -> str:
+    """the kind of terminator a block created at list position i gets in construction style `style`"""
+    return MIX[i % len(MIX)] if style == "mix" else style
+
+
 def add_term(b, tg, style: str) -> None:
-    """append the operation(s) that give block `b` the successor list `tg` in construction style `style`"""
+    """append the operation(s) that give block `b` the successor list `tg`; `style` is a kind here"""
     from xdsl.dialects import cf, test
     from xdsl.dialects.builtin import i1
 
@@ -105,22 +124,35 @@ def add_term(b, tg, style: str) -> None:
         b.add_op(cf.ConditionalBranchOp(c.results[0], tg[0], [], tg[1], []))
     elif style == "op":
         b.add_op(test.TestOp.create(successors=tg))  # as the parser builds `"test.op"()[^b]`
+    elif style == "unreg":
+        # an operation of a dialect that is not loaded, as the parser builds `"mydialect.branch"()[^b, ^c]`
+        # under allow_unregistered: it ends its block and carries successors like any other terminator
+        if "cls" not in _UNREG:
+            from xdsl.context import Context
+            _UNREG["cls"] = Context(allow_unregistered=True).get_op("mydialect.branch")
+        b.add_op(_UNREG["cls"].create(successors=tg))
     else:
         b.add_op(test.TestTermOp(successors=tg))
 
 
-def build(succs: Sequence[Sequence[int]], style: str):
+def has_op(kind: str, deg: int) -> bool:
+    return not (kind == "cf" and deg == 0)
+
+
+def build(succs: Sequence[Sequence[int]], style: str, kinds: Sequence[str] | None = None):
     """A real region whose i-th block branches to the blocks `succs[i]`.
     style `cf`: cf.br / cf.cond_br where the out-degree allows, an empty block for out-degree 0,
     test.termop otherwise; `term`: test.termop everywhere; `op`: test.op (no IsTerminator trait) as
-    in tests/test_dominance.py.  An index >= n denotes a block of another region."""
+    in tests/test_dominance.py; `unreg`: an unregistered operation with successors everywhere; `mix`:
+    cf / term / unreg by list position (`kinds`, when given, says it per block).
+    An index >= n denotes a block of another region."""
     from xdsl.ir import Block, Region
 
     n = len(succs)
     blocks = [Block() for _ in range(n)]
     foreign: dict[int, Any] = {}
     keep = []
-    for b, ss in zip(blocks, succs):
+    for i, (b, ss) in enumerate(zip(blocks, succs)):
         tg = []
         for s in ss:
             if s < n:
@@ -130,7 +162,7 @@ def build(succs: Sequence[Sequence[int]], style: str):
                     foreign[s] = Block()
                     keep.append(Region([foreign[s]]))
                 tg.append(foreign[s])
-        add_term(b, tg, style)
+        add_term(b, tg, kinds[i] if kinds is not None else kind_of(style, i))
     return Region(blocks), blocks, keep
 
 
@@ -701,7 +733,7 @@ def run_cases(ctx: core.Ctx, cases: list[tuple[Succs, str]], label: str, module_
             ctx.extra["stopped_after_non_terminations"] = {"family": label, "count": HANGS["n"]}
             break
         # ---- dominance
-        line, dom, sdom, ml = dom_impl(succs, style, module_level=(n <= module_level_upto))
+        line, dom, sdom, ml = dom_impl(succs, style, module_level=(n <= module_level_upto and style != "mix"))
         ctx.ev()
         if len(r) >= 2:
             ctx.nt(("dom", succs, style))
@@ -761,10 +793,14 @@ def run_cases(ctx: core.Ctx, cases: list[tuple[Succs, str]], label: str, module_
 # keeps one or two real regions alive, edits their control flow through the public mutation API and asks
 # every entry point again after the edits; every answer is judged against the graph read back from the
 # region at that moment (successor lists of each block's last operation, blocks in list order), and the
-# Lean model is run on that same graph.  Steps are lists of ints interpreted modulo the current sizes, so
+# Lean model is run on that same graph.  The REFERENCE graph, however, is the control flow the edits asked for
+# (kept next to the region by list arithmetic, `Live.want`): an edit that stores other successor lists than
+# requested (say, both edges of a multi-edge retargeted when one was) makes dominance and post-order wrong for
+# the CFG the client built, although every analysis is consistent with what the operations store.  Steps are lists of ints interpreted modulo the current sizes, so
 # every step applies to every state (shrinking may drop any of them):
 #   ["q", r]                  ask everything about region r
-#   ["retarget", r, b, k, t]  last_op(b).successors[k] = t          (blocks and their order unchanged)
+#   ["retarget", r, b, k, t]  last_op(b).successors[k] = t          (blocks and their order unchanged; a sixth
+#                             element 1: the edge is addressed by its negative index, counted from the end)
 #   ["setsuccs", r, b, ts]    last_op(b).successors = ts            (same; cf style keeps the arity)
 #   ["newterm", r, b, ts]     erase the operations of b, append a new terminator with successors ts
 #   ["addblock", r, pos, ts]  insert a new block at list position pos branching to ts
@@ -773,10 +809,16 @@ def run_cases(ctx: core.Ctx, cases: list[tuple[Succs, str]], label: str, module_
 #   ["rebuild", r, succs]     drop the region and build a new one (fresh objects, possibly at the same addresses)
 
 class Live:
-    """one real region under edit"""
+    """one real region under edit, and next to it the control flow the edits ASKED for (`want`: successor
+    lists by list position, `kinds`: what ends each block), kept by plain list arithmetic that never looks at
+    the region: the CFG of the region is the one its client built through the public API, so every answer is
+    judged against `want`, not against whatever successor lists the operations happen to store."""
 
     def __init__(self, succs, style: str):
         self.style = style
+        self.want: list[list[int]] = [list(x) for x in succs]
+        self.kinds: list[str] = [kind_of(style, i) for i in range(len(succs))]
+        self.diverged: tuple[int, str] | None = None  # (step, kind of edit) after which region and `want` first differ
         self.region, _blocks, _keep = build(succs, style)
 
     def blocks(self) -> list[Any]:
@@ -785,16 +827,32 @@ class Live:
     def graph(self) -> Succs:
         bl = self.blocks()
         idx = {id(b): i for i, b in enumerate(bl)}
-        return tuple(tuple(idx[id(t)] for t in (b.last_op.successors if b.last_op is not None else ())) for b in bl)
+        return tuple(tuple(idx.get(id(t), len(bl)) for t in (b.last_op.successors if b.last_op is not None else ()))
+                     for b in bl)
+
+    def wanted(self) -> Succs:
+        return tuple(tuple(x) for x in self.want)
 
 
-def set_term(block, tg, style: str) -> None:
+# the public mutation API a kind of edit goes through (call_site of a defect that an edit introduces)
+EDIT_SITE = {
+    "retarget": "xdsl.ir.core.OpSuccessors.__setitem__",
+    "setsuccs": "xdsl.ir.core.Operation.successors",
+    "newterm": "xdsl.ir.core.Block.erase_op",
+    "addblock": "xdsl.ir.core.Region.insert_block",
+    "eraseblock": "xdsl.ir.core.Region.erase_block",
+    "moveblock": "xdsl.ir.core.Region.detach_block",
+}
+
+
+def set_term(block, tg, kind: str) -> None:
     for op in reversed(list(block.ops)):
         block.erase_op(op)
-    add_term(block, tg, style)
+    add_term(block, tg, kind)
 
 
 def apply_step(lives: list[Live | None], st: Sequence[Any], style: str) -> None:
+    """the edit on the real region (public API) and, independently, on the lists `want` / `kinds`"""
     from xdsl.ir import Block
 
     kind, r = st[0], st[1] % len(lives)
@@ -806,29 +864,44 @@ def apply_step(lives: list[Live | None], st: Sequence[Any], style: str) -> None:
     live = lives[r]
     assert live is not None
     bl = live.blocks()
-    n = len(bl)
+    want, kinds = live.want, live.kinds
+    n = len(want)
     if n == 0:
         return
+    if len(bl) != n:
+        return  # the region lost or gained a block: reported at the next query, further edits are meaningless
     if kind == "retarget":
-        op = bl[st[2] % n].last_op
-        if op is not None and len(op.successors):
-            op.successors[st[3] % len(op.successors)] = bl[st[4] % n]
+        b = st[2] % n
+        deg = len(want[b])
+        if deg:
+            k = st[3] % (2 * deg) - deg if len(st) > 5 and st[5] else st[3] % deg  # st[5]: index counted from the end
+            bl[b].last_op.successors[k] = bl[st[4] % n]
+            want[b][k] = st[4] % n
     elif kind == "setsuccs":
-        op = bl[st[2] % n].last_op
+        b = st[2] % n
         ts = list(st[3])
-        if op is None:
+        if not has_op(kinds[b], len(want[b])):
             return
-        if style == "cf":  # cf.br / cf.cond_br have a fixed number of successors
-            k = len(op.successors)
+        if kinds[b] == "cf":  # cf.br / cf.cond_br have a fixed number of successors
+            k = len(want[b])
             ts = [ts[i % len(ts)] for i in range(k)] if ts else [t for t in range(k)]
-        op.successors = [bl[t % n] for t in ts]
+        bl[b].last_op.successors = [bl[t % n] for t in ts]
+        want[b] = [t % n for t in ts]
     elif kind == "newterm":
-        set_term(bl[st[2] % n], [bl[t % n] for t in st[3]], style)
+        b = st[2] % n
+        kinds[b] = kind_of(style, b)
+        set_term(bl[b], [bl[t % n] for t in st[3]], kinds[b])
+        want[b] = [t % n for t in st[3]]
     elif kind == "addblock":
+        pos = st[2] % (n + 1)
         nb = Block()
-        live.region.insert_block(nb, st[2] % (n + 1))
+        live.region.insert_block(nb, pos)
         bl = live.blocks()
-        add_term(nb, [bl[t % (n + 1)] for t in st[3]], style)
+        add_term(nb, [bl[t % (n + 1)] for t in st[3]], kind_of(style, pos))
+        for ss in want:
+            ss[:] = [t + (t >= pos) for t in ss]
+        want.insert(pos, [t % (n + 1) for t in st[3]])
+        kinds.insert(pos, kind_of(style, pos))
     elif kind == "eraseblock":
         if n < 2:
             return
@@ -843,9 +916,21 @@ def apply_step(lives: list[Live | None], st: Sequence[Any], style: str) -> None:
                     if x is bl[b]:
                         op.successors[k] = bl[t]
         live.region.erase_block(bl[b])
+        del want[b], kinds[b]
+        for ss in want:
+            ss[:] = [(t if x == b else x) for x in ss]
+            ss[:] = [x - (x > b) for x in ss]
     elif kind == "moveblock":
-        blk = live.region.detach_block(bl[st[2] % n])
-        live.region.insert_block(blk, st[3] % n)
+        b, pos = st[2] % n, st[3] % n
+        blk = live.region.detach_block(bl[b])
+        live.region.insert_block(blk, pos)
+        order = list(range(n))
+        order.pop(b)
+        order.insert(pos, b)
+        new = {old: i for i, old in enumerate(order)}
+        moved = [[new[x] for x in want[old]] for old in order]
+        live.kinds[:] = [kinds[old] for old in order]
+        want[:] = moved
     else:
         raise core.InfraError(f"C24: unknown history step {st!r}")
 
@@ -873,51 +958,83 @@ def hist_case(regions, style: str, steps) -> dict:
 def run_history(case: dict, trace: list | None = None):
     """Executes the history on real regions.  Returns (bad, info) for the first query step at which the
     property fails (bad as in dom_oracle / po_oracle; info = {step, region, graph, impl, expected}), else
-    (None, None).  `trace` collects (kind, graph, observation line, step) of every query for the
+    (None, None).  The reference graph of a query is the control flow REQUESTED so far (`Live.want`); the
+    successor lists read back from the region are what the Lean model is run on (`trace`) and decide how a
+    failure is named.  `trace` collects (kind, graph, observation line, step) of every query for the
     correspondence with the model; trace entries `("edit", changed_graph, changed_dominance)` for statistics."""
     style = case["style"]
     lives: list[Live | None] = [Live(g, style) for g in case["regions"]]
     asked: list[list[Succs]] = [[] for _ in lives]
     for i, st in enumerate(case["steps"]):
         if st[0] != "q":
-            apply_step(lives, st, style)
+            r = st[1] % len(lives)
+            try:
+                apply_step(lives, st, style)
+            except core.InfraError:
+                raise
+            except Exception as e:  # noqa: BLE001
+                return ((EDIT_SITE.get(st[0], "xdsl.ir.core.Region"), "exception in an edit of the control flow of a well-formed region",
+                         f"the edit {st} raised {core.exc_name(e)}"),
+                        {"step": i, "region": r, "graph": [], "impl": "raise " + core.exc_name(e),
+                         "expected": "the edit is carried out"})
             if st[0] == "rebuild":
-                asked[st[1] % len(lives)] = []
+                asked[r] = []
+            else:
+                live = lives[r]
+                if live is not None and live.diverged is None and live.graph() != live.wanted():
+                    live.diverged = (i, st[0])
             continue
         r = st[1] % len(lives)
         live = lives[r]
         assert live is not None
         bl = live.blocks()
-        g = live.graph()
-        n = len(bl)
+        got = live.graph()      # what the operations store
+        g = live.wanted()       # what the client built
+        n = len(g)
         before = asked[r][-1] if asked[r] else None
         if trace is not None and before is not None:
             trace.append(("edit", before != g, len(before) != n or ref_dom_full(before) != ref_dom_full(g)))
+        if len(bl) != n:
+            at, what = live.diverged or (i, "edit")
+            return ((EDIT_SITE.get(what, "xdsl.ir.core.Region"), "the region has another number of blocks than the edits requested",
+                     f"after step {at} ({what}) the region has {len(bl)} blocks, the edits requested {n}"),
+                    {"step": i, "region": r, "graph": [list(x) for x in g], "impl": f"{len(bl)} blocks", "expected": f"{n} blocks"})
         pairs = asked_pairs(n, g, before, i)
         line, dom, sdom, ml = observe_dom(live.region, bl, module_level=True, pairs=pairs)
         if trace is not None:
-            trace.append(("dominance", g, line, i))
+            trace.append(("dominance", got, line, i))
         bad = dom_exception(line) if dom is None else dom_oracle(g, dom, sdom, ml, pairs)
+        pline = out = None
+        if bad is None and n >= 1 and style != "op":
+            pline, out = observe_po(bl[0], bl)
+            if trace is not None:
+                trace.append(("post_order", got, pline, i))
+            bad = po_exception(pline) if out is None or pline.startswith("raise") else po_oracle(g, out)
         if bad is not None:
-            if any(st[0] != "q" for st in case["steps"][:i]):
+            is_po = pline is not None
+            expected = ("any duplicate-free order of " + str(sorted(reach(g))) + " ending with 0" if is_po else
+                        "d " + show_rel(ref_dom_full(g)) + " (rows of unreachable blocks are not demanded)")
+            impl = pline if is_po else (line if dom is None else {"DominanceInfo": line, **{k: v[1] for k, v in (ml or {}).items()}})
+            if got != g:
+                # the answers fit the successor lists the operations store, but those are not the control flow
+                # that was requested: the defect is in the edit, and is named so
+                at, what = live.diverged or (i, "edit")
+                stored_ok = (dom is not None and dom_oracle(got, dom, sdom, ml, pairs) is None) if not is_po else \
+                    (out is not None and not pline.startswith("raise") and po_oracle(got, out) is None)
+                if stored_ok:
+                    bad = (EDIT_SITE.get(what, bad[0]),
+                           f"{bad[1]}: after `{what}` the region stores other successor lists than the edits requested",
+                           f"{bad[2]} (requested control flow {[list(x) for x in g]}, stored after step {at} "
+                           f"[{what}]: {[list(x) for x in got]})")
+            elif any(st[0] != "q" for st in case["steps"][:i]) and not is_po:
                 # the same control flow in a region built from scratch, asked the same way: if that is answered
                 # correctly the defect is one of histories (something outlives an edit), and is named so
-                region2, blocks2, _k = build(g, style)
+                region2, blocks2, _k = build(g, style, live.kinds)
                 l2, d2, s2, m2 = observe_dom(region2, blocks2, module_level=True, pairs=pairs)
                 if d2 is not None and dom_oracle(g, d2, s2, m2, pairs) is None:
                     bad = (bad[0], bad[1] + " after an edit of the region (a region built from scratch with the same "
                            "control flow is answered correctly)", bad[2])
-            return bad, {"step": i, "region": r, "graph": [list(x) for x in g], "impl": line if dom is None else
-                         {"DominanceInfo": line, **{k: v[1] for k, v in (ml or {}).items()}},
-                         "expected": "d " + show_rel(ref_dom_full(g)) + " (rows of unreachable blocks are not demanded)"}
-        if n >= 1 and style != "op":
-            pline, out = observe_po(bl[0], bl)
-            if trace is not None:
-                trace.append(("post_order", g, pline, i))
-            bad = po_exception(pline) if out is None or pline.startswith("raise") else po_oracle(g, out)
-            if bad is not None:
-                return bad, {"step": i, "region": r, "graph": [list(x) for x in g], "impl": pline,
-                             "expected": "any duplicate-free order of " + str(sorted(reach(g))) + " ending with 0"}
+            return bad, {"step": i, "region": r, "graph": [list(x) for x in g], "impl": impl, "expected": expected}
         asked[r].append(g)
     return None, None
 
@@ -948,15 +1065,16 @@ def shrink_history(case: dict, bad) -> dict:
     return cur
 
 
-def enum_edit_histories(n: int, styles: Sequence[str]) -> Iterator[dict]:
-    """every graph with n blocks x every single-edge retarget that changes it: ask, retarget, ask"""
+def enum_edit_histories(n: int, styles: Sequence[str], from_end: bool = False) -> Iterator[dict]:
+    """every graph with n blocks x every single-edge retarget that changes it: ask, retarget, ask
+    (from_end: the edge is addressed by its index counted from the end of the successor list)"""
     for j, g in enumerate(enum_graphs(n)):
         style = styles[j % len(styles)]
         for b in range(n):
             for k in range(len(g[b])):
                 for t in range(n):
                     if t != g[b][k]:
-                        yield hist_case([g], style, [["q", 0], ["retarget", 0, b, k, t], ["q", 0]])
+                        yield hist_case([g], style, [["q", 0], ["retarget", 0, b, k, t] + ([1] if from_end else []), ["q", 0]])
 
 
 def enum_newterm_histories(n: int, styles: Sequence[str]) -> Iterator[dict]:
@@ -990,7 +1108,9 @@ def random_history(rng, style: str) -> dict:
         r = rng.randrange(nr)
         x = rng.random()
         if x < 0.45:
-            st = ["retarget", r, rng.randrange(big), rng.randrange(3), rng.randrange(big)]
+            st = ["retarget", r, rng.randrange(big), rng.randrange(6), rng.randrange(big)]
+            if rng.random() < 0.3:
+                st += [1]  # the edge is addressed by its index counted from the end
         elif x < 0.55:
             st = ["setsuccs", r, rng.randrange(big), targets()]
         elif x < 0.67:
@@ -1105,7 +1225,18 @@ def run_malformed(ctx: core.Ctx, count: int) -> None:
 
 
 def run(ctx: core.Ctx) -> None:
+    import time
+    t0 = [time.time()]
+    stage: dict[str, float] = {}
+
+    def lap(name: str) -> None:
+        now = time.time()
+        stage[name] = round(stage.get(name, 0.0) + now - t0[0], 1)
+        t0[0] = now
+
+    ctx.extra["stage_wall_s"] = stage
     ctx.lean()
+    lap("lean")
     quick = ctx.tier == "quick"
     bound = 3 if quick else 4
     nrandom = 3000 if quick else 25000
@@ -1113,27 +1244,35 @@ def run(ctx: core.Ctx) -> None:
     for n in range(1, bound + 1):
         for g in enum_graphs(n):
             if n <= 3:
-                cases.extend(((g, "cf"), (g, "term"), (g, "op")))
+                cases.extend(((g, "cf"), (g, "term"), (g, "op"), (g, "unreg")))
+                if n >= 2:
+                    cases.append((g, "mix"))
             else:
                 cases.extend(((g, "cf"), (g, "term")))
     run_cases(ctx, cases, "exhaustive", module_level_upto=3)
+    lap("exhaustive_graphs")
     # histories, small scope: every graph x every single edit of one edge / one terminator
-    styles = ("cf", "term", "op")
+    styles = STYLES
     nh = 0
-    for n in range(1, 3):
-        nh += run_histories(ctx, enum_edit_histories(n, styles), "history_exhaustive_retarget")
-        nh += run_histories(ctx, enum_edit_histories(n, styles[1:] + styles[:1]), "history_exhaustive_retarget")
-        nh += run_histories(ctx, enum_edit_histories(n, styles[2:] + styles[:2]), "history_exhaustive_retarget")
-        nh += run_histories(ctx, enum_newterm_histories(n, styles), "history_exhaustive_newterm")
+    rot = [styles[k:] + styles[:k] for k in range(len(styles))]  # every graph in every style
+    nh += run_histories(ctx, itertools.chain.from_iterable(
+        enum_edit_histories(n, st, from_end=fe) for n in (1, 2) for st in rot for fe in (False, True)),
+        "history_exhaustive_retarget")
+    nh += run_histories(ctx, itertools.chain.from_iterable(enum_newterm_histories(n, st) for n in (1, 2) for st in rot[:2]),
+                        "history_exhaustive_newterm")
+    lap("exhaustive_histories_n<=2")
     nh += run_histories(ctx, enum_edit_histories(3, styles), "history_exhaustive_retarget",
                         reserve_s=ctx.budget_s * (0.55 if quick else 0.5))
+    lap("exhaustive_histories_n=3")
     if not quick:
+        nh += run_histories(ctx, enum_edit_histories(3, styles[2:] + styles[:2], from_end=True), "history_exhaustive_retarget",
+                            reserve_s=ctx.budget_s * 0.45)
         nh += run_histories(ctx, enum_newterm_histories(3, styles), "history_exhaustive_newterm", reserve_s=ctx.budget_s * 0.4)
     # random: a third of the graphs are structured CFGs listed in a shuffled order
     rnd: list[tuple[Succs, str]] = []
     for i in range(nrandom):
         g = structured_graph(ctx.rng) if i % 3 == 2 else random_graph(ctx.rng)
-        rnd.append((g, ("cf", "term", "op")[(i // 3 + i) % 3]))
+        rnd.append((g, STYLES[i % len(STYLES)]))
     # a handful through the module-level entry points as well
     run_cases(ctx, rnd[:150], "random", module_level_upto=14)
     for k in range(150, len(rnd), 5000):
@@ -1141,9 +1280,11 @@ def run(ctx: core.Ctx) -> None:
             ctx.extra["random_truncated_at"] = k
             break
         run_cases(ctx, rnd[k:k + 5000], "random", module_level_upto=0)
+    lap("random_graphs")
     nrh = 600 if quick else 8000
-    hs = [random_history(ctx.rng, styles[i % 3]) for i in range(nrh)]
+    hs = [random_history(ctx.rng, styles[i % len(styles)]) for i in range(nrh)]
     nh += run_histories(ctx, hs, "history_random", reserve_s=10)
+    lap("random_histories")
     run_malformed(ctx, 60)
     ctx.exhaustive = True
     ctx.extra["exhaustive_scope"] = (f"all CFGs with <= {bound} blocks, out-degree <= 2 (ordered successor lists with "
